@@ -10,6 +10,12 @@ CLAIMED = {
   "design_ref": "DESIGN.md §5 C01",
   "note": "Trusted: Lean kernel; propext/Classical.choice/Quot.sound; per-theorem bv_decide axioms (listed in evidence); tools/extract translator (validated against compiled macros each run); CSem's reading of C (modular casts, arithmetic >>); gcc builtins as documented.",
  },
+ "C02": {
+  "technique": "Lean 4 theorems over regenerated float macros/emitter table + exact soft-float spec + runtime-ops/e2e differential tie",
+  "text": "FMIN/FMAX regenerated from w2c2_base.h are proved equal to WebAssembly fmin/fmax for all operand bit patterns (incl. signed zeros, NaN→NaN); all 16 truncation macros are proved to trap with invalid-conversion (saturating: yield 0) on every NaN payload; for each of the 70 float/conversion opcodes the emitted statement is proved to compute the IEEE operation / cast chain / bit-level operation the specification names, with IEEE arithmetic given by an exact soft-float (CSem.Float) that is tested against the CPU on every run. Exactness of the finite truncation range guards is currently tied by boundary-neighbour differential runs (theorem trunc_guard_exact pending), stated as partial in the evidence.",
+  "design_ref": "DESIGN.md §5 C02",
+  "note": "Trusted: Lean kernel; tools/extract; CPU/libm IEEE-754 binary32/64 RNE arithmetic = CSem.Float (assumption, exercised by e2e on boundary+random operands each run); gcc gives casts the C11 meaning.",
+ },
 }
 
 NOT_YET = {f"C{n:02d}": "check under construction in this round (model/theorems not yet committed); see DESIGN.md §8 build order" for n in range(1, 21)}
